@@ -22,7 +22,9 @@ func SetDefaults_StatefulSet(obj *StatefulSet) {
 		obj.Spec.UpdateStrategy.Type = RollingUpdateStatefulSetStrategyType
 
 		// UpdateStrategy.RollingUpdate will take default values below.
-		obj.Spec.UpdateStrategy.RollingUpdate = &RollingUpdateStatefulSetStrategy{}
+		if obj.Spec.UpdateStrategy.RollingUpdate == nil {
+			obj.Spec.UpdateStrategy.RollingUpdate = &RollingUpdateStatefulSetStrategy{}
+		}
 	}
 
 	if obj.Spec.UpdateStrategy.Type == RollingUpdateStatefulSetStrategyType &&
